@@ -215,6 +215,8 @@ def garbage_plan(K, ctx, prop):
         s = c["s"]
         return len(s) >= 2
 
+    ctx.judge_env = {"NV_PROP": prop}
+
     def one(fmt):
         def add_drive(cmds, f):
             tmp = cmds + ".drive"
@@ -285,7 +287,7 @@ def eqhash_plan(K, ctx, prop):
     def nontrivial(c):
         return c["op"] != "eqhash" or json.dumps(c["a"], sort_keys=True) != json.dumps(c["b"], sort_keys=True)
 
-    cmds, obs = None, None
+    ctx.judge_env = {"NV_PROP": prop}
     cmds = os.path.join(ctx.rundir, "eq_ascii.cmds.ndjson")
     obs = os.path.join(ctx.rundir, "eq_ascii.obs.ndjson")
     open(cmds, "w").close()
@@ -320,8 +322,36 @@ def eqhash_plan(K, ctx, prop):
     }
 
 
+# ------------------------------------------------------------------------------------------------ C16
+def plan_c16(K, ctx):
+    quick = ctx.tier == "quick"
+    cfg = ("SPECIFICATION Spec\n" + consts(TIER=f'"{ctx.tier}"', SEEDS=16, SEED=ctx.seed) +
+           "INVARIANT TextNormalised\nINVARIANT Injective\nINVARIANT Emit\nCHECK_DEADLOCK FALSE\n")
+
+    def reps(cmds, fmt):
+        lines = [x for x in open(cmds, encoding="utf-8").read().split("\n") if x]
+        with open(cmds, "w", encoding="utf-8") as g:
+            for x in lines:
+                c = json.loads(x)
+                c["reps"] = 3 if quick else 6
+                g.write(json.dumps(c, ensure_ascii=False) + "\n")
+
+    # one judge over the whole history (M6 needs every rendering in one place): no sharding
+    K.pipeline(ctx, "ascii", "c16", "MC_C16", cfg, "J_C16", nontrivial_value, workers=8, extra_cmds=reps, shards=1)
+    return {
+        "note": "Typst.tla: layout by arity on the dumped markup constants. TLC checks that every model rendering is whitespace-normalised and "
+                "that rendering is injective on the whole universe (cardinality of the image = cardinality of the universe): U1, atoms, late-"
+                "placeholder images, a sample / all of U2r, and the sentence / task envelopes. Conformance (M6): every value is built and rendered "
+                "several times by the real renderer; J_C16 checks no panic, character-wise normalisation, agreement of the copies up to component "
+                "order, and over the whole history that no text stands for two different values. Model text vs real text is DRIFT only.",
+        "rule": "one case = one value rendered `reps` times; non-trivial = compound/statement term or any sentence/task; injectivity is decided over all pairs of the run",
+        "assumptions": TRUSTED,
+    }
+
+
 PLANS = {
     "C01": plan_c01,
+    "C16": plan_c16,
     "C06": lambda K, ctx: eqhash_plan(K, ctx, "C06"),
     "C07": lambda K, ctx: eqhash_plan(K, ctx, "C07"),
     "C04": lambda K, ctx: garbage_plan(K, ctx, "C04"),
@@ -337,7 +367,7 @@ PLANS = {
 
 
 # ------------------------------------------------------------------------------------------------ replay / selftest
-JUDGE_OF = {"C06": "J_C06", "C07": "J_C06", "C04": "J_Garbage", "C05": "J_Garbage", "C12": "J_Garbage", "C08": "J_C08", "C09": "J_Pipe", "C10": "J_Pipe", "C01": "J_C01", "C17": "J_C17", "C14": "J_C14", "C13": "J_C13"}
+JUDGE_OF = {"C16": "J_C16", "C06": "J_C06", "C07": "J_C06", "C04": "J_Garbage", "C05": "J_Garbage", "C12": "J_Garbage", "C08": "J_C08", "C09": "J_Pipe", "C10": "J_Pipe", "C01": "J_C01", "C17": "J_C17", "C14": "J_C14", "C13": "J_C13"}
 
 
 def replay(K, pid, path, seed):
@@ -346,9 +376,11 @@ def replay(K, pid, path, seed):
     K.sh([K.NV, "dump-vocab", ctx.vocab], 120)
     cmds = os.path.join(ctx.rundir, "replay.cmds.ndjson")
     obs = os.path.join(ctx.rundir, "replay.obs.ndjson")
-    open(cmds, "w", encoding="utf-8").write(json.dumps(r["command"], ensure_ascii=False) + "\n")
+    todo = [r["command"]] + [c for c in r.get("context", []) if c != r["command"]]
+    open(cmds, "w", encoding="utf-8").write("".join(json.dumps(c, ensure_ascii=False) + "\n" for c in todo))
     K.run_exec(ctx, cmds, obs, threads=1)
-    bad = K.run_judge(ctx, r["judge"], r["fmt"], obs, "replay_judge")
+    bad = K.run_judge(ctx, r["judge"], r["fmt"], obs, "replay_judge", env_extra=r.get("judge_env"))
+    bad = [b for b in bad if b[0] == 1]
     if bad:
         K.log(f"VIOLATION property={pid} replay={path}")
         K.log(f"  tags={bad[0][1]}")
